@@ -12,6 +12,8 @@ pub fn model(tier: Tier, world: &str) -> Hist {
     let mut roots: Vec<_> = standard_roots(&w, &s0, true).into_iter().filter(|(n, _)| n != "R4").collect();
     roots.extend(tokenless_roots(&w, &s0));
     roots.extend(killed_root(&w, &s0));
+    roots.extend(migrated_shell_root(&w, &s0));
+    roots.extend(emissions_root(&w, &s0));
     let mut alpha = Alphabet::standard(vec![0, 1], vec![0, 1]);
     alpha.tokenless = true;
     alpha.collect = false;
